@@ -324,3 +324,63 @@ package main
 //@   ensures state-kept: result == P
 //@   at after call RootStmtsToGo#0: T = ret
 //@   at after call frt.Destr2#1: P = ret
+
+// ---------------------------------------------------------------------------------------------
+// C07 (three clauses): per-let context reset, root-scope guard.  (Output naming is the contract of
+// transpileOne above.)  Pointer-valued hand-written helpers are abstract.
+// ---------------------------------------------------------------------------------------------
+
+//@ func NewTypeVarAllocator
+//@   trusted
+//@   panics never
+//@   note abstract: allocates a new type-variable allocator (pointer); hand-written, outside the verified subset
+
+//@ func newResolver
+//@   trusted
+//@   panics never
+//@   note abstract: allocates fresh equivalence-class dictionaries
+
+//@ func SCLen
+//@   trusted
+//@   panics never
+//@   returns sclen(sc)
+//@   note abstract: walks the parent pointers of a scope (acyclicity assumed)
+
+//@ func psResetTmpCtx
+//@   props C07
+//@   modifies glob:uniqueid
+//@   panics never
+//@   ensures counter-reset: uniqueId == 0
+//@   ensures rest-kept: result.tkz == ps.tkz && result.scope == ps.scope && result.offsideCol == ps.offsideCol && result.tdctx == ps.tdctx
+
+//@ func tkzPanic
+//@   props C07 C09 C06
+//@   panics iff true
+
+//@ func psPanic
+//@   props C07 C09 C06
+//@   panics iff true
+
+//@ func parsePackage
+//@   trusted
+//@   panics may
+//@ func parseImport
+//@   trusted
+//@   panics may
+//@ func parseRootLet
+//@   trusted
+//@   panics may
+//@ func parseTypeDef
+//@   trusted
+//@   panics may
+//@ func parsePackageInfo
+//@   trusted
+//@   panics may
+//@ func psForErrMsg
+//@   trusted
+//@   panics never
+
+//@ func parseRootOneStmt
+//@   props C07
+//@   panics may
+//@   ensures root-scope-only: sclen(ps.scope) <= 1
